@@ -142,7 +142,7 @@ func checkC20(c *Ctx) {
 	c.Clause("Get returns only connections with since(lastUsed) ≤ idleTimeout; stale ones are closed, not returned")
 	c.Clause("Put appends only while len(idle) < maxIdle; a rejected connection is closed")
 	c.Clause("Close closes the connection it is given on every path")
-	c.Clause("the reverse proxy receives the client's own request (its context), so nothing but the peers ends an upgraded connection")
+	c.Clause("the reverse proxy receives the client's own request (its context), so nothing but the peers ends an upgraded connection; no middleware hands the request on with a context Helios can end itself (WithTimeout / WithDeadline / WithCancel)")
 	c.Clause("Shutdown closes every idle connection of every pool under both locks and replaces the pool map")
 	c.Clause("staleness is judged against a clock read taken with the pool lock held (time spent waiting for the lock counts)")
 	c.NotDecided("byte-exact relaying (inside net/http/httputil); pool histories against a reference model")
@@ -167,6 +167,7 @@ func checkC20(c *Ctx) {
 			}
 			return ""
 		})
+	c.requestContextIsClients()
 	lockDiscipline(c, func(k string) bool {
 		return strings.HasPrefix(k, poolT) || strings.HasPrefix(k, "loadbalancer.WebSocketPool.")
 	})
@@ -974,6 +975,7 @@ func checkC03(c *Ctx) {
 	c.timeoutsConfigured()
 	c.timeoutOptionsApplied()
 	c.passiveThreshold()
+	c.requestContextIsClients()
 	ws := c.wrappers()
 	c.Floor("wrapper-fresh-per-request", len(ws), 4, "ResponseWriter wrappers")
 	for _, w := range ws {
@@ -1619,4 +1621,83 @@ func (c *Ctx) goroutinesCannotCrash() {
 		}
 	}
 	c.Floor(rule, n, 3, "goroutines started by Helios")
+}
+
+// requestContextIsClients: several clauses read the request's context as "the client": it ends an
+// upgraded connection only when a peer goes (C20), and a cancelled context excuses a failed exchange
+// from passive ejection because the *client* hung up (C04, C03).  Both hold only while nothing in
+// Helios gives the request a context that Helios itself can end: every (*http.Request).WithContext in
+// the serving path hands on a context derived from the request's own through WithValue only — never
+// through WithTimeout, WithDeadline or WithCancel.  (A deadline that ends a hung backend's exchange
+// looks like a client that went away and is then never counted against the backend.)
+func (c *Ctx) requestContextIsClients() {
+	p := c.P
+	rule := "request-context-is-clients"
+	n := 0
+	for _, fn := range p.Funcs {
+		if !p.InScope(fn) {
+			continue
+		}
+		for _, ci := range callsIn(fn) {
+			if CalleeName(ci) != "(*net/http.Request).WithContext" {
+				continue
+			}
+			n++
+			construct := p.FuncKey(fn) + "/Request.WithContext"
+			args := ci.Common().Args
+			bad := ""
+			seen := map[ssa.Value]bool{}
+			var walk func(v ssa.Value, d int)
+			walk = func(v ssa.Value, d int) {
+				if v == nil || seen[v] || d > 12 || bad != "" {
+					return
+				}
+				seen[v] = true
+				switch x := v.(type) {
+				case *ssa.Call:
+					switch n := CalleeName(x); n {
+					case "context.WithTimeout", "context.WithDeadline", "context.WithCancel", "context.WithCancelCause", "context.WithTimeoutCause", "context.WithDeadlineCause":
+						bad = p.InstrPos(x) + ": " + n
+						return
+					case "context.Background", "context.TODO":
+						bad = p.InstrPos(x) + ": " + n + " (the client's cancellation is cut off)"
+						return
+					}
+					for _, a := range x.Call.Args {
+						walk(a, d+1)
+					}
+					if x.Call.IsInvoke() {
+						walk(x.Call.Value, d+1)
+					}
+				case *ssa.Extract:
+					walk(x.Tuple, d+1)
+				case *ssa.Phi:
+					for _, e := range x.Edges {
+						walk(e, d+1)
+					}
+				case *ssa.MakeInterface:
+					walk(x.X, d+1)
+				case *ssa.ChangeInterface:
+					walk(x.X, d+1)
+				case *ssa.UnOp:
+					if a, ok := x.X.(*ssa.Alloc); ok && a.Referrers() != nil {
+						for _, r := range *a.Referrers() {
+							if st, ok := r.(*ssa.Store); ok && st.Addr == ssa.Value(a) {
+								walk(st.Val, d+1)
+							}
+						}
+					}
+				}
+			}
+			if len(args) >= 2 {
+				walk(args[1], 0)
+			}
+			if bad != "" {
+				c.Fail(rule, construct, p.InstrPos(ci), "the request handed on carries a context Helios can end itself ("+bad+"): a cancelled request context no longer means that the client went away — a hung backend cut off by that deadline is excused from passive ejection like a client hang-up, and an upgraded connection ends when it fires")
+			} else {
+				c.Pass(rule, construct, p.InstrPos(ci), "the context handed on derives from the request's own through WithValue only")
+			}
+		}
+	}
+	c.Floor(rule, n, 1, "Request.WithContext call sites")
 }
